@@ -186,6 +186,58 @@ fn artefact_inputs<V: Full>() -> String {
     format!("secret={}\npke_secret={}\npke_public={}\npbkw_blob={}\ncands={}\n", hex::encode(&ks.secrets[0].bytes), hex::encode(&ks.pke[0].0.bytes), hex::encode(&ks.pke[0].1.bytes), blob, cands.join(","))
 }
 
+/// paseto-json: `Json<T>` exists with and without the `claims` feature; both builds give the same transcript
+fn json_behaviour() -> Sub {
+    Sub::new("paseto-json/reduced-behaviour", 1, "paseto-json built with and without its `claims` feature (a probe program that depends on it with default-features = false): Json<Value> decode -> encode as payload and as footer over 25 documents (objects, roots, number boundaries, duplicates, escapes, trailing text) and 30 000 generated number literals (1..17 significant digits, exponents -40..39): the two builds print the same transcript", |_, describe| {
+        let mut o = Outcome::new();
+        let dir = "/verif/probes/c19json";
+        let run = |claims: bool| -> Result<BTreeMap<String, String>, String> {
+            let mut args = vec!["run", "--offline", "--quiet"];
+            if claims {
+                args.extend(["--features", "claims"]);
+            }
+            let out = Command::new("cargo")
+                .args(&args)
+                .current_dir(dir)
+                .env("CARGO_TARGET_DIR", format!("{dir}/target-{}", if claims { "claims" } else { "plain" }))
+                .env("CARGO_NET_OFFLINE", "true")
+                .env_remove("RUSTFLAGS")
+                .output()
+                .map_err(|e| format!("cannot run cargo: {e}"))?;
+            if !out.status.success() {
+                return Err(format!("probe build/run failed: {}", String::from_utf8_lossy(&out.stderr).lines().filter(|l| l.starts_with("error") || l.contains("panicked")).take(4).collect::<Vec<_>>().join(" | ")));
+            }
+            Ok(String::from_utf8_lossy(&out.stdout).lines().filter_map(|l| l.split_once('=').map(|(k, v)| (k.to_string(), v.to_string()))).collect())
+        };
+        o.evals = 2;
+        o.nontrivial = 2;
+        match (run(true), run(false)) {
+            (Ok(full), Ok(reduced)) => {
+                if !full.contains_key("end") || full.len() < 50 {
+                    o.violate("paseto-json/reduced/vacuous", "the probe printed no transcript", json!({}));
+                }
+                let mut same = true;
+                for (k, v) in full.iter() {
+                    if reduced.get(k) != Some(v) {
+                        same = false;
+                        o.violate(format!("paseto-json/reduced:no-claims/differs:{}", if k.starts_with("numbers_block") { "numbers" } else { k.as_str() }), format!("paseto-json without `claims`: {k} gives {:?}, the build with `claims` gives {v:?}", reduced.get(k)), json!({}));
+                    }
+                }
+                if same {
+                    o.class("same-as-full-build");
+                }
+            }
+            (a, b) => o.violate("paseto-json/reduced/probe-failed", format!("{:?} / {:?}", a.err(), b.err()), json!({})),
+        }
+        if describe {
+            o.sample = Some(json!({"crate": "paseto-json", "builds": ["claims", "no features"]}));
+        }
+        o
+    })
+    .expensive()
+    .witness(&["same-as-full-build"])
+}
+
 pub fn build(ctx: &Ctx) -> Property {
     let mut p = Property::new("C19", "exploration");
     let thorough = ctx.thorough();
@@ -328,6 +380,7 @@ pub fn build(ctx: &Ctx) -> Property {
         .expensive()
         .witness(&["same-as-full-build"]),
     );
+    p.subs.push(json_behaviour());
     p.assume("feature implication edges are parsed from the crates' Cargo.toml at run time; dep: and dependency-feature edges only add code and are not features of the lattice");
     p.assume("behaviour probe covers deterministic operations (v1 signatures are randomised: validity is compared instead of bytes)");
     p
